@@ -165,6 +165,11 @@ func (ht *quadraticHashTable[K, V]) Put(key K, val V) {
 	next := ht.probe(key)
 	for i = next(); ht.entries[i] != nil; i = next() {
 		if ht.eqKey(ht.entries[i].key, key) {
+			// Reviving a soft-deleted key adds a key-value again
+			if ht.entries[i].deleted {
+				ht.n++
+			}
+
 			ht.entries[i].val = val
 			ht.entries[i].deleted = false
 			return
